@@ -168,6 +168,7 @@ def run(repo, rep, tier):
     _r8_symbols_consumed(repo, rep)
     _r9_array_braces(repo, rep)
     _r10_values_not_defaulted_by_truth(repo, rep)
+    _r11_keyword_by_own_attribute(repo, rep)
     # ---- R6 ---------------------------------------------------------------
     for cname in MOF_CLASSES:
         cls = repo.cls(OBJ, cname)
@@ -896,3 +897,56 @@ def _r10_values_not_defaulted_by_truth(repo, rep):
     if n < 4:
         raise AnalysisError('C08.R10: only %d constructor calls with a value '
                             'in the grammar actions' % n)
+
+
+def _r11_keyword_by_own_attribute(repo, rep):
+    """C08.R11: whether tomof() writes a MOF keyword (a flavor name, Scope,
+    Flavor, ...) depends on one attribute of the object only.  Each keyword
+    stands for the state of one attribute (Translatable for translatable,
+    EnableOverride / DisableOverride for overridable, ...); a second
+    attribute in the condition (`self.translatable and self.type ==
+    'string'`) makes the generator drop the keyword for objects that carry
+    the attribute, and the compiled element comes back without it."""
+    from ..cfg import stmt_facts
+    r11 = rep.rule('C08.R11', 'a keyword written by tomof() is decided by '
+                   'one attribute of the object')
+    m = repo.module(OBJ)
+    for c in sorted(m.classes.values(), key=lambda c_: c_.name):
+        f = c.methods.get('tomof')
+        if f is None:
+            continue
+        for st, (fs, _t) in stmt_facts(f.node).items():
+            if not (isinstance(st, ast.Expr) and
+                    isinstance(st.value, ast.Call) and
+                    isinstance(st.value.func, ast.Attribute) and
+                    st.value.func.attr in ('append', 'extend') and
+                    st.value.args):
+                continue
+            lit = const_str(st.value.args[0])
+            if lit is None or not re.fullmatch(r'\s*[A-Za-z][A-Za-z ]*\(?\s*',
+                                               lit):
+                continue
+            attrs = set()
+            for t, _pol in fs:
+                for x in ast.walk(t):
+                    if isinstance(x, ast.Attribute) and \
+                            isinstance(x.value, ast.Name) and \
+                            x.value.id == 'self':
+                        attrs.add(x.attr)
+            r11.sites += 1
+            r11.functions.add(f.fq)
+            ok = len(attrs) <= 1
+            r11.ob(ok, '%s|%s' % (c.name, lit.strip()),
+                   {'decided_by': sorted(attrs)})
+            if not ok:
+                rep.finding(r11, f.qualname, norm(st, 60),
+                            'keyword-by-several-attributes', OBJ, st.lineno,
+                            'the keyword %r is written only under a '
+                            'condition on several attributes %s: an object '
+                            'that has the attribute the keyword stands for '
+                            'is printed without it (and compiles back '
+                            'without it) depending on an unrelated '
+                            'attribute' % (lit.strip(), sorted(attrs)))
+    if r11.sites < 8:
+        raise AnalysisError('C08.R11: only %d keyword literals in the '
+                            'tomof() methods' % r11.sites)
